@@ -73,7 +73,7 @@ def fields(out):
     return d
 
 def project(c, out):
-    return ' '.join(t for t in out.split(' ') if t != 'SPECDIFF')
+    return ' '.join(t for t in out.split(' ') if t != 'SPECDIFF' and not t.startswith('reqs='))   # request counts: internal (growth policy)
 
 def _txt(v):
     return None if v == 'NULL' else unhx(v)
